@@ -137,7 +137,7 @@ def graph_case(draw):
                 d = np.array([0, 0, abs(d[2]) if kind == 'far' else d[2]])
                 if abs(d[2]) < 0.2:
                     continue
-                d = d / abs(d[2]) * (1 if d[2] > 0 else -1)
+                d = d / abs(d[2])          # (0, 0, +1) or, inside the tolerance only, (0, 0, -1)
             new = [float(x) for x in (np.array(o[e]) + d * fac * minseg)]
             o[e] = new
             pert.append(kind)
